@@ -23,8 +23,6 @@
 //   (*Handler).DeleteToken, the cookie helpers, the extractors, configDefault, normalizeOrigin, New
 //
 // Obligations that FAIL on the unchanged code for a genuine reason (replays in /verif/replay/known/c16_*):
-//   refererMatchesHost/post:nil-only-same-or-trusted-origin#2   wildcard entries are matched against the whole
-//                               referer URL (path included): "https://attacker.test/.example.com" passes "https://*.example.com"
 //   (*storageManager).delRaw/post:deleted, deleteTokenFromStorage/post:dead-afterwards (session back end)
 //                               a failed delete is ignored: the request passes and the single-use token stays live
 //   (*storageManager).setRaw/post:stored, createOrExtendTokenInStorage/post:live-afterwards (session back end)
@@ -69,36 +67,70 @@ package csrf
 //@ macro trustedWild(subs, o) = exists(i, 0, len(subs), sdMatch(subs[i].prefix, subs[i].suffix, o))
 //@ macro sentinelErrors() = errOriginNotFound != nil && plainErr(errOriginNotFound) && ErrOriginInvalid != nil && plainErr(ErrOriginInvalid) && ErrOriginInvalid != errOriginNotFound && ErrOriginNoMatch != nil && plainErr(ErrOriginNoMatch) && ErrOriginNoMatch != errOriginNotFound
 
+// What is compared with the trusted lists is the ORIGIN of the presented value - presOrigin(v): scheme "://" host of
+// the parsed URL -, never its raw text: a path, query or fragment in the header takes no part ("https://attacker.com/.example.com"
+// is the origin https://attacker.com). For Origin and Referer alike (allowedBy). A wildcard entry matches only when the
+// SCHEME of the presented value is the entry's and its HOST ends with the entry's dot-separated suffix (wildOnHost; it
+// needs the shape New establishes for the stored pairs: prefix "scheme://", suffix ".domain").
+//@ macro presOrigin(v) = urlScheme(v) + "://" + urlHost(v)
+//@ macro allowedBy(c, v, list, subs) = sameOrigin(c, v) || trustedExact(list, presOrigin(v)) || trustedWild(subs, presOrigin(v))
+//@ fn hostUnder(h string, s string) bool = len(h) >= len(s) && h[len(h)-len(s):] == s
+//@ macro wildOnHost(subs, v) = exists(i, 0, len(subs), subs[i].prefix == urlScheme(v) + "://" && hostUnder(urlHost(v), subs[i].suffix) && subs[i].suffix[0] == '.')
+
 //@ func originMatchesHost
 //@   pure
 //@   requires sentinel-errors: sentinelErrors()
+//@   requires trusted-wildcards-shaped: wildShaped()
 //@   loop 1
 //@     invariant not-listed-so-far: forall(k, 0, rangeindex + 1, trustedOrigins[k] != origin)
 //@   loop 2
 //@     invariant no-wildcard-so-far: forall(k, 0, rangeindex + 1, !sdMatch(trustedSubOrigins[k].prefix, trustedSubOrigins[k].suffix, origin))
+// lemmas at the wildcard test (s, o: the entry and the string handed to (subdomain).match): the string is the presented
+// origin; a scheme holds no ':' or '/' (url.Parse: scheme-is-lowered-head); so when the entry's "scheme://" is a prefix of
+// scheme "://" host, the two schemes have the same length (the first ':' of either string), the prefix IS the presented
+// scheme plus "://", and the suffix lies within the host.
+//@   atcall (subdomain).match: compares-presented-origin: o == presOrigin(originLc(c))
+//@   atcall (subdomain).match: scheme-has-no-separator: forall(k, 0, len(urlScheme(originLc(c))), urlScheme(originLc(c))[k] != ':' && urlScheme(originLc(c))[k] != '/')
+//@   atcall (subdomain).match: entry-scheme-not-longer: sdMatch(s.prefix, s.suffix, o) && len(urlScheme(originLc(c))) < len(s.prefix) - 3 ==> o[len(urlScheme(originLc(c)))] == ':' && s.prefix[len(urlScheme(originLc(c)))] == ':'
+//@   atcall (subdomain).match: entry-scheme-not-shorter: sdMatch(s.prefix, s.suffix, o) && len(urlScheme(originLc(c))) > len(s.prefix) - 3 ==> s.prefix[len(s.prefix)-3] == ':' && o[len(s.prefix)-3] == ':' && urlScheme(originLc(c))[len(s.prefix)-3] == ':'
+//@   atcall (subdomain).match: entry-scheme-same-length: sdMatch(s.prefix, s.suffix, o) ==> len(s.prefix) == len(urlScheme(originLc(c))) + 3
+//@   atcall (subdomain).match: entry-scheme-is-presented-scheme: sdMatch(s.prefix, s.suffix, o) ==> s.prefix == urlScheme(originLc(c)) + "://"
+//@   atcall (subdomain).match: entry-suffix-within-host: sdMatch(s.prefix, s.suffix, o) ==> hostUnder(urlHost(originLc(c)), s.suffix) && s.suffix[0] == '.'
 //@   ensures plain-sentinel-or-nil: result == nil || plainErr(result)
 //@   ensures absent-iff-not-found: result == errOriginNotFound <==> (originLc(c) == "" || originLc(c) == "null")
-//@   ensures nil-only-same-or-trusted: result == nil ==> originLc(c) != "" && originLc(c) != "null" && urlOK(originLc(c)) && (sameOrigin(c, originLc(c)) || trustedExact(trustedOrigins, originLc(c)) || trustedWild(trustedSubOrigins, originLc(c)))
-//@   ensures same-or-trusted-is-nil: originLc(c) != "" && originLc(c) != "null" && urlOK(originLc(c)) && (sameOrigin(c, originLc(c)) || trustedExact(trustedOrigins, originLc(c)) || trustedWild(trustedSubOrigins, originLc(c))) ==> result == nil
+//@   ensures nil-only-same-or-trusted-origin: result == nil ==> originLc(c) != "" && originLc(c) != "null" && urlOK(originLc(c)) && allowedBy(c, originLc(c), trustedOrigins, trustedSubOrigins)
+//@   ensures same-or-trusted-origin-is-nil: originLc(c) != "" && originLc(c) != "null" && urlOK(originLc(c)) && allowedBy(c, originLc(c), trustedOrigins, trustedSubOrigins) ==> result == nil
+//@   ensures wildcard-only-on-host-suffix: result == nil && !sameOrigin(c, originLc(c)) && !trustedExact(trustedOrigins, presOrigin(originLc(c))) ==> wildOnHost(trustedSubOrigins, originLc(c))
 
 // The Referer is a full URL: what has to be same-origin or trusted is its origin, scheme://host.
 // trustedWf: every exact entry is a serialised origin (established by New through normalizeOrigin).
-// nil-only-same-or-listed-or-string-wildcard describes what the code does (wildcards against the whole URL);
-// nil-only-same-or-trusted-origin is the property and FAILS (see the head of the file).
-//@ macro refOrigin(r) = urlScheme(r) + "://" + urlHost(r)
 //@ macro trustedWf(list) = forall(i, 0, len(list), originForm(list[i]))
 
 //@ func refererMatchesHost
 //@   pure
 //@   requires sentinel-errors: ErrRefererNotFound != nil && ErrRefererInvalid != nil && ErrRefererNoMatch != nil
 //@   requires trusted-are-origins: trustedWf(trustedOrigins)
+//@   requires trusted-wildcards-shaped: wildShaped()
 //@   loop 1
 //@     invariant not-listed-so-far: forall(k, 0, rangeindex + 1, trustedOrigins[k] != referer)
 //@   loop 2
 //@     invariant no-wildcard-so-far: forall(k, 0, rangeindex + 1, !sdMatch(trustedSubOrigins[k].prefix, trustedSubOrigins[k].suffix, referer))
+// lemmas at the wildcard test (s, o: the entry and the string handed to (subdomain).match): the string is the presented
+// origin; a scheme holds no ':' or '/' (url.Parse: scheme-is-lowered-head); so when the entry's "scheme://" is a prefix of
+// scheme "://" host, the two schemes have the same length (the first ':' of either string), the prefix IS the presented
+// scheme plus "://", and the suffix lies within the host.
+//@   atcall (subdomain).match: compares-presented-origin: o == presOrigin(refererLc(c))
+//@   atcall (subdomain).match: scheme-has-no-separator: forall(k, 0, len(urlScheme(refererLc(c))), urlScheme(refererLc(c))[k] != ':' && urlScheme(refererLc(c))[k] != '/')
+//@   atcall (subdomain).match: entry-scheme-not-longer: sdMatch(s.prefix, s.suffix, o) && len(urlScheme(refererLc(c))) < len(s.prefix) - 3 ==> o[len(urlScheme(refererLc(c)))] == ':' && s.prefix[len(urlScheme(refererLc(c)))] == ':'
+//@   atcall (subdomain).match: entry-scheme-not-shorter: sdMatch(s.prefix, s.suffix, o) && len(urlScheme(refererLc(c))) > len(s.prefix) - 3 ==> s.prefix[len(s.prefix)-3] == ':' && o[len(s.prefix)-3] == ':' && urlScheme(refererLc(c))[len(s.prefix)-3] == ':'
+//@   atcall (subdomain).match: entry-scheme-same-length: sdMatch(s.prefix, s.suffix, o) ==> len(s.prefix) == len(urlScheme(refererLc(c))) + 3
+//@   atcall (subdomain).match: entry-scheme-is-presented-scheme: sdMatch(s.prefix, s.suffix, o) ==> s.prefix == urlScheme(refererLc(c)) + "://"
+//@   atcall (subdomain).match: entry-suffix-within-host: sdMatch(s.prefix, s.suffix, o) ==> hostUnder(urlHost(refererLc(c)), s.suffix) && s.suffix[0] == '.'
 //@   ensures nil-needs-parsable-referer: result == nil ==> refererLc(c) != "" && urlOK(refererLc(c))
 //@   ensures same-origin-is-nil: refererLc(c) != "" && urlOK(refererLc(c)) && sameOrigin(c, refererLc(c)) ==> result == nil
-//@   ensures nil-only-same-or-trusted-origin: result == nil ==> sameOrigin(c, refererLc(c)) || trustedExact(trustedOrigins, refOrigin(refererLc(c))) || trustedWild(trustedSubOrigins, refOrigin(refererLc(c)))
+//@   ensures nil-only-same-or-trusted-origin: result == nil ==> allowedBy(c, refererLc(c), trustedOrigins, trustedSubOrigins)
+//@   ensures same-or-trusted-origin-is-nil: refererLc(c) != "" && urlOK(refererLc(c)) && allowedBy(c, refererLc(c), trustedOrigins, trustedSubOrigins) ==> result == nil
+//@   ensures wildcard-only-on-host-suffix: result == nil && !sameOrigin(c, refererLc(c)) && !trustedExact(trustedOrigins, presOrigin(refererLc(c))) ==> wildOnHost(trustedSubOrigins, refererLc(c))
 
 // ---------------------------------------------------------------------------------------------
 // Token store, storage back end. smLive(m, k): token k is in the store of manager m (issued, not
@@ -306,8 +338,8 @@ package csrf
 //@ macro bypassed() = called(Config.Next) && last(Config.Next)
 //@ macro unsafeMethod(c) = reqMethod(c, epoch) != "GET" && reqMethod(c, epoch) != "HEAD" && reqMethod(c, epoch) != "OPTIONS" && reqMethod(c, epoch) != "TRACE"
 //@ macro originAbsent(c) = originLc(c) == "" || originLc(c) == "null"
-//@ macro originAllowed(c) = !originAbsent(c) && urlOK(originLc(c)) && (sameOrigin(c, originLc(c)) || trustedExact(trustedOrigins, originLc(c)) || trustedWild(trustedSubOrigins, originLc(c)))
-//@ macro refererAllowed(c) = refererLc(c) != "" && urlOK(refererLc(c)) && (sameOrigin(c, refererLc(c)) || trustedExact(trustedOrigins, refOrigin(refererLc(c))) || trustedWild(trustedSubOrigins, refOrigin(refererLc(c))))
+//@ macro originAllowed(c) = !originAbsent(c) && urlOK(originLc(c)) && allowedBy(c, originLc(c), trustedOrigins, trustedSubOrigins)
+//@ macro refererAllowed(c) = refererLc(c) != "" && urlOK(refererLc(c)) && allowedBy(c, refererLc(c), trustedOrigins, trustedSubOrigins)
 //@ macro cookieTok(c) = reqCookie(c, old(cfg.CookieName), epoch)
 
 //@ func New$1
@@ -321,13 +353,19 @@ package csrf
 //@   requires session-back-end-wired: sessionWired(cfg, sessionManager, c)
 // -- unsafe methods: what must hold whenever the protected handler is reached
 //@   atcall @fiber.Ctx.Next: unsafe-origin-same-or-trusted: !bypassed() && unsafeMethod(c) ==> originAllowed(c) || (originAbsent(c) && (reqScheme(c, epoch) != "https" || refererAllowed(c)))
-//@   atcall @fiber.Ctx.Next: unsafe-wildcard-origin-is-scheme-and-dot-suffix: !bypassed() && unsafeMethod(c) && !originAbsent(c) && !sameOrigin(c, originLc(c)) && !trustedExact(trustedOrigins, originLc(c)) ==>
-//@ ..   exists(i, 0, len(trustedSubOrigins), sdShape(trustedSubOrigins[i].prefix, trustedSubOrigins[i].suffix) && sdMatch(trustedSubOrigins[i].prefix, trustedSubOrigins[i].suffix, originLc(c)) && originLc(c)[len(originLc(c))-len(trustedSubOrigins[i].suffix)] == '.')
+// a presented value that is neither the request's own origin nor an exact entry passed a wildcard entry on its HOST:
+// same scheme, host ending with the entry's ".domain" (not on the raw header text: path, query, fragment take no part)
+//@   atcall @fiber.Ctx.Next: unsafe-wildcard-origin-is-scheme-and-host-suffix: !bypassed() && unsafeMethod(c) && !originAbsent(c) && !sameOrigin(c, originLc(c)) && !trustedExact(trustedOrigins, presOrigin(originLc(c))) ==> wildOnHost(trustedSubOrigins, originLc(c))
+//@   atcall @fiber.Ctx.Next: unsafe-wildcard-referer-is-scheme-and-host-suffix: !bypassed() && unsafeMethod(c) && originAbsent(c) && reqScheme(c, epoch) == "https" && !sameOrigin(c, refererLc(c)) && !trustedExact(trustedOrigins, presOrigin(refererLc(c))) ==> wildOnHost(trustedSubOrigins, refererLc(c))
 //@   atcall @fiber.Ctx.Next: unsafe-token-extracted: !bypassed() && unsafeMethod(c) ==> called(Config.Extractor) && exOK && exTok != ""
 //@   atcall @fiber.Ctx.Next: unsafe-token-matches-cookie: !bypassed() && unsafeMethod(c) ==> (called(isFromCookie) && last(isFromCookie)) || exTok == cookieTok(c)
 // ... for every extractor, FromCookie(name) included (isFromCookie never answers true, see its contract)
 //@   atcall @fiber.Ctx.Next: unsafe-token-matches-cookie-whatever-the-extractor: !bypassed() && unsafeMethod(c) ==> exTok == cookieTok(c)
 //@   atcall @fiber.Ctx.Next: unsafe-token-was-live: !bypassed() && unsafeMethod(c) ==> called(getRawFromStorage) && last(getRawFromStorage) != nil && tokLiveAtEntry(c, exTok)
+// -- the checks run against the lists New built from the configuration: a presented origin that is allowed by the
+// handler's lists is not turned away by the origin / referer check (whichever error the error handler is called with)
+//@   atcall Config.ErrorHandler: allowed-origin-is-not-rejected-by-the-origin-check: originAllowed(c) ==> last(originMatchesHost) == nil
+//@   atcall Config.ErrorHandler: allowed-referer-is-not-rejected-by-the-referer-check: originAbsent(c) && reqScheme(c, epoch) == "https" && refererAllowed(c) ==> called(refererMatchesHost) && last(refererMatchesHost) == nil
 // -- what is looked up, consumed and issued
 //@   atcall getRawFromStorage: looks-up-presented-token: token == ite(unsafeMethod(c), exTok, cookieTok(c)) && token != ""
 //@   atcall deleteTokenFromStorage: consumes-presented-token: unsafeMethod(c) && old(cfg.SingleUseToken) && token == exTok
@@ -336,6 +374,10 @@ package csrf
 // unless a session operation failed in this activation, the session holds no CSRF entry at all when the new token is stored
 //@   atcall createOrExtendTokenInStorage: single-use-session-token-consumed-unless-session-fault: unsafeMethod(c) && old(cfg.SingleUseToken) && old(cfg.Session) != nil && sessErr == old(sessErr) ==> !sessHasEntry(old(cfg.Session), c)
 //@   atcall createOrExtendTokenInStorage: stores-only-issued-tokens: (called(Config.KeyGenerator) && token == last(Config.KeyGenerator)) || tokLiveAtEntry(c, token)
+// the store is written before the protected handler runs, never after it: a token that the handler deletes (DeleteToken,
+// logout) is not written back by the middleware (seed C16-7 moved the call behind c.Next)
+//@   atcall createOrExtendTokenInStorage: stored-before-the-protected-handler-runs: nextCalls == 0
+//@   atcall deleteTokenFromStorage: consumed-before-the-protected-handler-runs: nextCalls == 0
 //@   atcall createOrExtendTokenInStorage: live-presented-token-is-kept: !(unsafeMethod(c) && old(cfg.SingleUseToken)) && called(getRawFromStorage) && last(getRawFromStorage) != nil ==> token == ite(unsafeMethod(c), exTok, cookieTok(c))
 // -- every request that passes leaves a valid token cookie
 //@   atcall @fiber.Ctx.Next: cookie-carries-live-token: !bypassed() ==> rcSet[old(cfg.CookieName)] && rcVal[old(cfg.CookieName)] != "" && tokLive(c, rcVal[old(cfg.CookieName)])
